@@ -652,6 +652,9 @@ impl Add for Natural {
                         vec.push(lower);
                     }
                 }
+                if vec.len() != vec.capacity() {
+                    vec.push(0); // `bit_len` was over-estimated by one bit
+                }
             } else {
                 vec.extend_from_slice(&l_digits[..start_digit]);
                 let mut lower = 0;
